@@ -16,6 +16,8 @@ EXTENDS Integers, Sequences, FiniteSets, TLC, Json
 
 CONSTANTS MaxLen, AlphabetName
 
+Ent == INSTANCE Entities
+
 BS == 92  TICK == 96  STAR == 42  USC == 95  LB == 91  RB == 93  LP == 40  RP == 41  BANG == 33  SP == 32  DQ == 34  LT == 60  GT == 62  LF == 10
 IsPunct(b) == (b >= 33 /\ b <= 47) \/ (b >= 58 /\ b <= 64) \/ (b >= 91 /\ b <= 96) \/ (b >= 123 /\ b <= 126)
 IsWSb(b) == b \in {SP, 9, LF, 13, 12}
@@ -236,11 +238,8 @@ HtmlTag(s, p) ==
   LET e == Declaration(s, p) IN IF e > 0 THEN e ELSE CDATA(s, p)
 
 \* entities: &name; over a small table, &#digits; (1-7), &#xhex; (1-6)
-\* HTML5 entity names: the complete list restricted to names over the letters of the "entity" alphabet (x a m p G t l 1),
-\* generated once from the normative table, plus gt quot copy
-EntityNames == { <<97,109,112>>, <<108,116>>, <<103,116>>, <<113,117,111,116>>, <<99,111,112,121>>,
-                 <<120,109,97,112>>, <<97,112>>, <<109,97,112>>, <<109,97,108,116>>, <<109,112>>, <<112,109>>, <<71,97,109,109,97>>,
-                 <<71,116>>, <<108,97,112>>, <<108,97,116>>, <<108,108>> }
+\* HTML5 entity names: the complete table (Entities.tla, generated from the normative list: the 2 125 names that end in a semicolon)
+EntityNames == Ent!EntityNameSet
 IsHexD(b) == IsDigit(b) \/ (b >= 65 /\ b <= 70) \/ (b >= 97 /\ b <= 102)
 RECURSIVE RunWhile(_, _, _)
 RunWhile(s, i, kind) == LET c == At(s, i)
